@@ -8,7 +8,7 @@ instances in both orientations, with clues on the board edges/corners and zero-v
   IDX-1  no computed (non-literal) index or slice bound is negative at any subscript (silent wrap-around)
   IDX-2  no subscript is out of range / no exception while posting the constraints
   DK     (through IDX-2 on both orientations with clues at the last row/column) height/width roles agree
-  PZ-X   (pzx.py) for twenty-three puzzles with compact rules: admitted answers == rule-obeying grids on tiny instances
+  PZ-X   (pzx.py) for twenty-five puzzles with compact rules: admitted answers == rule-obeying grids on tiny instances
 Not decided: that the posted constraints are the published rules for the other solvers, and on larger boards.
 """
 
